@@ -124,7 +124,7 @@ def run_forms(ctx, p):
         ref_v = np.array(v, dtype=np.float64)
     a0, k0 = setpos(args, kwargs, pos, np.array(ref_v))
     base_res = attempt(e, a0, k0, recv)
-    forms = gen.FORMS if is_base(e) else ['list', 'tuple', 'array']
+    forms = gen.FORMS if (is_base(e) and 'forms3' not in e['tags']) else ['list', 'tuple', 'array']
     outcomes = {}
     for form in forms:
         given = gen.as_form(v, form)
